@@ -45,7 +45,7 @@ def table_snapshot(w):
 
 def run_case(case):
     from vlib.prog import World, norm
-    w = World({'handlers': case['handlers']})
+    w = World({'handlers': case['handlers'], 'mk': case.get('mk')})
     before, comps = table_snapshot(w)
     for spec in case['fires']:
         w.fire(spec)
@@ -253,6 +253,9 @@ def corpus():
             dict(HD(2, 'foo', [['ret', 'A']]), channel='a'), dict(HD(3, 'foo', [['yield', 'B1'], ['ret', 'B2']], gen=True), channel='b'),
             dict(HD(4, 'bar', [['ret', 'C']], prio=1), channel='b'), dict(HD(5, 'bar', [['raise']]), channel='a')],
             'fires': [E('a', flags=SF), E('a', flags=SF)] if kind != 'waitname' else [E('a', flags=SF)]})
+    # events whose name is not the name of their class (the done notification is named after the event)
+    for mk in ('attr', 'renamed'):
+        cs.append(dict(cs[0], name='basic-' + mk, mk=mk))
     # falsy (non-None) values relayed right after a call / wait, and a bare yield right after a call
     cs.append({'name': 'falsy-relay', 'handlers': [
         HD(1, 'a', [['call', E('b')], ['yieldlit', 0], ['wait', E('b')], ['yieldlit', ''], ['call', E('b')], ['yield', None], ['yieldlit', False]], gen=True),
@@ -394,7 +397,10 @@ def gen_case(rng):
     # names waited by name must not be fired by anybody else while the wait is open: drop plain fires/calls of them
     for h in handlers:
         h['body'] = [a for a in h['body'] if not (a[0] in ('fire', 'call', 'wait') and a[1]['name'] in seen)]
-    return {'handlers': handlers, 'fires': fires}
+    case = {'handlers': handlers, 'fires': fires}
+    if rng.random() < 0.2:
+        case['mk'] = rng.choice(['attr', 'renamed'])   # events whose name is not their class name
+    return case
 
 
 def plan(tier, seed):
